@@ -195,6 +195,38 @@ def run(ctx):
                 if c != "<nopath>":
                     d2["c"] = c
                 compare(ctx, [{"Variable": "$.v", op: "$.c", "Next": "Y"}], True, d2, "path")
+    # 2b. the Variable (and the *Path operand) may be a Context Object path: $$.Execution.Input.v is the same value as $.v in the first state, so every
+    #     rule must decide exactly as its '$.v' twin does according to the reference (null, missing, false and 0 included)
+    def ctxify(x):
+        if isinstance(x, dict):
+            return {k: (("$$.Execution.Input" + v[1:]) if k in ("Variable",) or k.endswith("Path") and isinstance(v, str) and v.startswith("$.") else ctxify(v)) for k, v in x.items()}
+        if isinstance(x, list):
+            return [ctxify(y) for y in x]
+        return x
+    for vname, v in VALS.items():
+        data = {"w": "a", "c": 1} if vname == "missing" else {"v": v, "w": "a", "c": 1}
+        leaves_ = [{"Variable": "$.v", op: c} for op in IS_OPS for c in (True, False)] + [{"Variable": "$.v", "NumericEquals": 0}, {"Variable": "$.v", "BooleanEquals": False},
+                                                                                          {"Variable": "$.v", "StringEquals": ""}, {"Variable": "$.w", "StringEqualsPath": "$.v"},
+                                                                                          {"Variable": "$.c", "NumericEqualsPath": "$.v"}]
+        for leaf in leaves_:
+            for wrap in (lambda x: x, lambda x: {"Not": x}, lambda x: {"And": [x, {"Variable": "$.w", "IsPresent": True}]}, lambda x: {"Or": [x, {"Variable": "$.nope", "IsPresent": True}]}):
+                i += 1
+                if not ctx.mine(i):
+                    continue
+                rule = dict(wrap(copy.deepcopy(leaf)), Next="Y")
+                try:
+                    want = reference([rule], True, data)
+                except R.Unspecified:
+                    ctx.count("unspecified"); continue
+                crule = ctxify(rule)
+                got = engine([crule], True, data)
+                ctx.evaluation(); ctx.count("compared"); ctx.count("context_path_variables")
+                ctx.nontrivial(dict(rules=[crule], input=data))
+                if got != want:
+                    # (is the '$.v' twin decided correctly by the engine?  if not, the disagreement is the twin's, with its own attribution)
+                    twin = engine([rule], True, data)
+                    ctx.violation("choice-disagrees-with-reference", dict(rules=[crule], default=True, input=data, expected=want, engine=got, family="context-path-variable",
+                                                                         same_rule_on_state_input=twin), classify([rule], data) if twin != want else None)
     # 3. And/Or/Not: exhaustive small trees over the leaf pool
     small = []
     for a, b in itertools.product(LEAF_POOL[:7], repeat=2):
